@@ -27,6 +27,8 @@ Lemma s_mixed_k k : s_mixed k = k_is_mixed k.
 Proof. destruct k; reflexivity. Qed.
 Lemma s_atomic_k k : s_atomic k = k_indefinite_in_par k.
 Proof. destruct k; reflexivity. Qed.
+Lemma s_childless_k k : s_childless k = ekind_eqb k KSet.
+Proof. destruct k; reflexivity. Qed.
 
 Lemma text_eqb_sym a b : text_eqb a b = text_eqb b a.
 Proof.
@@ -179,6 +181,11 @@ Proof.
     apply IH. exact He.
 Qed.
 
+(* the children of a <set> are not read *)
+Lemma loop_set proc tm vl par db pr lg l iend send kids anims pf nst :
+  children_loop proc tm vl KSet par db pr lg l iend send kids anims pf nst = LDone iend kids anims pf nst.
+Proof. destruct l as [|c l]; cbn [children_loop]; [reflexivity|]. cbn [ekind_eqb ekind_code Z.eqb andb]. destruct (negb par && _); reflexivity. Qed.
+
 Section Main.
   Variable ev : env.
 
@@ -188,20 +195,20 @@ Section Main.
         (r_des_begin r == fst (interval (tv_of ev) (negb (pc_par pc)) sync x))%Q /\
         oq_rel (r_des_end r) (snd (interval (tv_of ev) (negb (pc_par pc)) sync x)).
 
-  Lemma loop_par k db pr lg l : Forall sound l ->
+  Lemma loop_par k db pr lg l : ekind_eqb k KSet = false -> Forall sound l ->
     forall iend send kids anims pf nst iF kF aF nF acc,
       children_loop (process ev) (e_to_model ev) (e_valid ev) k true db pr lg l iend send kids anims pf nst = LDone iF kF aF false nF ->
       oq_rel iend (oadd db acc) ->
       oq_rel iF (oadd db (par_dur (interval (tv_of ev)) (k_is_mixed k) l acc)).
   Proof.
-    induction 1 as [|c l Hc Hl IH]; intros iend send kids anims pf nst iF kF aF nF acc H Hrel.
+    intro Hks. induction 1 as [|c l Hc Hl IH]; intros iend send kids anims pf nst iF kF aF nF acc H Hrel.
     - cbn [children_loop] in H. inversion H; subst. exact Hrel.
-    - cbn [children_loop par_dur] in H |- *. rewrite andb_true_r in H. cbn [negb andb] in H.
+    - cbn [children_loop par_dur] in H |- *. rewrite andb_true_r in H. cbn [negb andb] in H. rewrite Hks in H.
       destruct (ekind_eqb k KRegion && is_style_elem c) eqn:Est.
       { apply andb_true_iff in Est as [Ek Es]. rewrite (is_style_not_timed c Es).
         assert (k = KRegion) by (destruct k; try discriminate; reflexivity). subst k. cbn [k_is_mixed andb].
         eapply IH; eassumption. }
-      destruct (process ev (mkPctx true send pr lg (negb (ekind_eqb k KSet))) c) as [e| |r] eqn:Ep.
+      destruct (process ev (mkPctx true send pr lg _) c) as [e| |r] eqn:Ep.
       + discriminate.
       + rewrite (process_skip_timed _ _ _ Ep).
         destruct (x_tail c) as [t|]; cbn [has_text].
@@ -231,7 +238,7 @@ Section Main.
 
   (* sequential container: [send] is the end of the previous child (the cursor of the specification); while the implicit end is
      known it is that cursor plus the begin of the container; once it is unknown it stays unknown *)
-  Lemma loop_seq k db pr lg l : Forall sound l ->
+  Lemma loop_seq k db pr lg l : ekind_eqb k KSet = false -> Forall sound l ->
     forall iend send kids anims pf nst iF kF aF nF,
       children_loop (process ev) (e_to_model ev) (e_valid ev) k false db pr lg l iend send kids anims pf nst = LDone iF kF aF false nF ->
       match iend with
@@ -239,17 +246,17 @@ Section Main.
       | None => iF = None
       end.
   Proof.
-    induction 1 as [|c l Hc Hl IH]; intros iend send kids anims pf nst iF kF aF nF H.
+    intro Hks. induction 1 as [|c l Hc Hl IH]; intros iend send kids anims pf nst iF kF aF nF H.
     - cbn [children_loop] in H. inversion H; subst. destruct iF as [ie|]; [|reflexivity].
       intros cursor _ Hcur. cbn [seq_dur oadd oq_rel]. rewrite Hcur. ring.
-    - cbn [children_loop] in H. rewrite andb_false_r in H. cbn [negb andb] in H.
+    - cbn [children_loop] in H. rewrite andb_false_r in H. cbn [negb andb] in H. rewrite Hks in H.
       destruct (ekind_eqb k KRegion && is_style_elem c) eqn:Est.
       { apply andb_true_iff in Est as [Ek Es].
         specialize (IH _ _ _ _ _ _ _ _ _ _ H).
         destruct iend as [ie|]; [|exact IH]. intros cursor Hse Hcur. cbn [seq_dur]. rewrite (is_style_not_timed c Es). apply IH; assumption. }
       destruct send as [cur|].
       2:{ (* break *) inversion H; subst. destruct iF as [ie|]; [|reflexivity]. intros cursor Hse. discriminate. }
-      destruct (process ev (mkPctx false (Some cur) pr lg (negb (ekind_eqb k KSet))) c) as [e| |r] eqn:Ep.
+      destruct (process ev (mkPctx false (Some cur) pr lg _) c) as [e| |r] eqn:Ep.
       + discriminate.
       + assert (H' : children_loop (process ev) (e_to_model ev) (e_valid ev) k false db pr lg l iend (Some cur) kids anims pf nst = LDone iF kF aF false nF).
         { destruct (x_tail c); exact H. }
@@ -344,17 +351,23 @@ Proof.
   apply desired_end_of; [reflexivity|exact Hb|].
   set (b := (ibegin + match tattr (tv_of ev) attrs A_begin with Some v => v | None => 0 end)%Q) in *.
   (* implicit duration *)
-  rewrite s_atomic_k, negb_involutive, s_is_seq_par, s_mixed_k. fold par.
+  rewrite s_atomic_k, negb_involutive, s_childless_k, s_is_seq_par, s_mixed_k. fold par.
+  destruct (ekind_eqb k KSet) eqn:Eks.
+  { (* <set>: its children are not read; indefinite in a par parent, zero duration in a seq parent *)
+    assert (k = KSet) by (destruct k; try discriminate; reflexivity). subst k.
+    rewrite loop_set in Eloop. inversion Eloop; subst iF.
+    unfold iend1, iend0. cbn [k_is_mixed k_indefinite_in_par andb].
+    destruct txt; destruct (pc_par pc); cbn [oadd oq_rel]; try exact I; rewrite <- Hb; ring. }
   destruct (k_indefinite_in_par k && pc_par pc) eqn:Eat.
   - (* indefinite from the start *)
     assert (Hi1 : iend1 = None). { unfold iend1, iend0. destruct txt; [destruct (k_is_mixed k && par)|]; reflexivity. }
     rewrite Hi1 in Eloop. destruct par eqn:Epar.
-    + pose proof (loop_par ev k dbegin preserve lang cs IHcs _ _ _ _ _ _ _ _ _ _ None Eloop I) as Hl.
+    + pose proof (loop_par ev k dbegin preserve lang cs Eks IHcs _ _ _ _ _ _ _ _ _ _ None Eloop I) as Hl.
       rewrite par_dur_none in Hl. destruct iF; simpl in Hl; [contradiction|exact I].
-    + pose proof (loop_seq ev k dbegin preserve lang cs IHcs _ _ _ _ _ _ _ _ _ _ Eloop) as Hl. cbn in Hl. subst iF. exact I.
+    + pose proof (loop_seq ev k dbegin preserve lang cs Eks IHcs _ _ _ _ _ _ _ _ _ _ Eloop) as Hl. cbn in Hl. subst iF. exact I.
   - destruct par eqn:Epar; cbn [negb].
     + rewrite andb_true_r in *.
-      pose proof (loop_par ev k dbegin preserve lang cs IHcs _ _ _ _ _ _ _ _ _ _
+      pose proof (loop_par ev k dbegin preserve lang cs Eks IHcs _ _ _ _ _ _ _ _ _ _
                     (if k_is_mixed k && has_text txt then None else Some 0%Q) Eloop) as Hl.
       assert (Hrel : oq_rel iend1 (oadd dbegin (if k_is_mixed k && has_text txt then None else Some 0%Q))).
       { unfold iend1, iend0. destruct txt; cbn [has_text]; [destruct (k_is_mixed k); cbn [andb oadd oq_rel]|rewrite andb_false_r; cbn [oadd oq_rel]]; try exact I; ring. }
@@ -363,6 +376,6 @@ Proof.
     + rewrite andb_false_r in *.
       assert (Hi1 : iend1 = Some dbegin). { unfold iend1, iend0. destruct txt; [rewrite andb_false_r|]; reflexivity. }
       rewrite Hi1 in Eloop.
-      pose proof (loop_seq ev k dbegin preserve lang cs IHcs _ _ _ _ _ _ _ _ _ _ Eloop 0%Q eq_refl) as Hl.
+      pose proof (loop_seq ev k dbegin preserve lang cs Eks IHcs _ _ _ _ _ _ _ _ _ _ Eloop 0%Q eq_refl) as Hl.
       eapply oq_rel_trans; [apply Hl; ring|]. apply oadd_compat; [exact Hb|apply oq_rel_refl].
 Qed.
